@@ -15,6 +15,8 @@ STRENGTHENED = {
     "C12-agent-3": "MISSED at first (self loops were filtered out of the acyclic slice); caught after DAGs whose only cycle is a self loop were generated",
     "C20-agent-1": "caught by the tournament histories (added earlier, after an own rank-3 mutant was missed)",
     "C20-agent-3": "MISSED at first (constructor always got a fresh list); caught after the `second_tree` operation and the caller-list check were added",
+    "C02-agent-1": "MISSED at first by the quick tier (thorough caught it once in 532 k runs, on a medium z3-judged formula with GC threshold 16); caught by quick after a 15 % slice of medium near-threshold 3-SAT with GC threshold 2-16 was added",
+    "C02-agent-3": "MISSED at first (verdicts stay right); caught after the budget rule was added: more than max_conflicts + n_vars + 1 analysed conflicts, or more than max_restarts restarts, is `budget_ignored`",
     "C17-agent-3": "MISSED at first (only integer roll widths were generated); caught after fractional roll widths were added",
 }
 WHAT = {}
